@@ -44,9 +44,12 @@ static Point64 to_real(const RcCtx& c, const Point64& w) { return Point64(c.S * 
 static Path64 path_real(const RcCtx& c, const Path64& w) { Path64 r; r.reserve(w.size()); for (auto& q : w) r.push_back(to_real(c, q)); return r; }
 static Path64 unit_to_work(const RcCtx& c, const Path64& u) { Path64 r; for (auto& q : u) r.emplace_back(q.x * c.mw, q.y * c.mw); return r; }
 // raw output in working coordinates: exact -> subtract t; coarse -> nearest working (= unit) coordinate
+// (TLC integers are 32-bit and the JSON reader wraps silently: a coordinate far outside the family - e.g. a garbage vertex - is clamped to
+// +-100000 working units; the per-vertex measurements `vm` are taken on the true coordinates, and the trace specs judge such a result by them)
+static int64_t clampw(int64_t v) { return v > 100000 ? 100000 : (v < -100000 ? -100000 : v); }
 static Point64 to_work(const RcCtx& c, const Point64& v) {
-  if (!c.emb.coarse) return Point64(v.x - c.emb.tx, v.y - c.emb.ty);
-  return Point64(floordiv(v.x - c.emb.tx + c.S / 2, c.S), floordiv(v.y - c.emb.ty + c.S / 2, c.S));
+  if (!c.emb.coarse) return Point64(clampw(v.x - c.emb.tx), clampw(v.y - c.emb.ty));
+  return Point64(clampw(floordiv(v.x - c.emb.tx + c.S / 2, c.S)), clampw(floordiv(v.y - c.emb.ty + c.S / 2, c.S)));
 }
 static Paths64 paths_work(const RcCtx& c, const Paths64& ps) { Paths64 r; for (auto& p : ps) { Path64 w; for (auto& q : p) w.push_back(to_work(c, q)); r.push_back(w); } return r; }
 
@@ -98,6 +101,14 @@ static std::vector<long long> cover_real(const RcCtx& c, const Paths64& out) {
   return r;
 }
 static int sgn128(i128 v) { return v > 0 ? 1 : v < 0 ? -1 : 0; }
+// |2 * area| divided by (2 * L1-perimeter + 2 * #vertices), saturated at 100: how far the area is above what moving every vertex by one unit could change
+static long long area_quot(const Path64& p) {
+  i128 a = area2_of(p); if (a < 0) a = -a;
+  i128 l1 = 0; size_t n = p.size();
+  for (size_t i = 0; i < n; ++i) { const Point64 &A = p[i], &B = p[(i + 1) % n]; i128 dx = (i128)B.x - A.x, dy = (i128)B.y - A.y; l1 += (dx < 0 ? -dx : dx) + (dy < 0 ? -dy : dy); }
+  i128 d = 2 * l1 + 2 * (i128)n; if (d == 0) return 0;
+  return sat(a / d);
+}
 
 // ------------------------------------------------------------------ path families (unit coordinates)
 static Path64 decode_idx(long long idx, int nv) { Path64 p; for (int k = 0; k < nv; ++k) { int d = (int)(idx % 25); idx /= 25; p.emplace_back(8 * (d % 5), 8 * (d / 5)); } return p; }
@@ -116,6 +127,16 @@ static Path64 gen_orbit(Rng& r, int nv) {      // walks round the outer ring (po
     else p.push_back(ring_pt(pos));
     pos += dir * (int)r.range(1, maxstep);
     if (r.range(0, 11) == 0) dir = -dir;
+  }
+  return p;
+}
+static Path64 gen_free(Rng& r, int nv) {       // arbitrary integer vertices (not on the lattice), clustered near the rectangle's sides now and then
+  Path64 p; const int64_t hot[6] = {8, 24, 11, 21, 10, 23};
+  for (int k = 0; k < nv; ++k) {
+    int64_t x = r.range(0, 32), y = r.range(0, 32);
+    if (r.range(0, 5) == 0) x = hot[r.range(0, 5)] + r.range(-1, 1);
+    if (r.range(0, 5) == 0) y = hot[r.range(0, 5)] + r.range(-1, 1);
+    p.emplace_back(x, y);
   }
   return p;
 }
@@ -138,6 +159,8 @@ static void gen_family(const Args& a, Rng& r, bool closed, const PathSink& sink)
     for (long long i = 0; i < n; ++i) sink(decode_idx((long long)(r.next() % (uint64_t)tot), nv));
   } else if (fam == "rand") {
     for (long long i = 0; i < n; ++i) sink(gen_rand(r, (int)r.range(nvlo, nvhi)));
+  } else if (fam == "free") {
+    for (long long i = 0; i < n; ++i) sink(gen_free(r, (int)r.range(nvlo, nvhi)));
   } else if (fam == "orbit") {
     for (long long i = 0; i < n; ++i) sink(gen_orbit(r, (int)r.range(nvlo, std::max(nvhi, nvlo))));
   } else { fprintf(stderr, "unknown --fam %s\n", fam.c_str()); exit(2); }
@@ -167,9 +190,9 @@ static int cmd_rc(const Args& a) {
     Path64 w = unit_to_work(c, unit), pr = path_real(c, w);
     Paths64 out = RectClip(c.rreal, Paths64{pr}); ++ncalls;
     std::set<std::pair<int64_t, int64_t>> inputs; for (auto& q : pr) inputs.insert({q.x, q.y});
-    std::vector<long long> asg; for (auto& p : out) asg.push_back(sgn128(area2_of(p)));
+    std::vector<long long> asg, aq; for (auto& p : out) { asg.push_back(sgn128(area2_of(p))); aq.push_back(area_quot(p)); }
     Ev e("Case"); e.kn("id", ++id).kn("b", K > 0 ? 1 : 0).kv("P", jpath(w)).kn("n", (long long)out.size()).kv("cover", jints(cover_real(c, out)))
-      .kv("vm", vm_of(c, out, inputs, true)).kv("asg", jints(asg)).kn("same", out == Paths64{pr} ? 1 : 0);
+      .kv("vm", vm_of(c, out, inputs, true)).kv("asg", jints(asg)).kv("aq", jints(aq)).kn("same", out == Paths64{pr} ? 1 : 0);
     if (!c.emb.coarse) e.kv("raw", jpaths(paths_work(c, out)));
     os << e.str() << "\n";
     if (K > 0) {
@@ -207,7 +230,7 @@ static int cmd_rcl(const Args& a) {
     Paths64 out1 = RectClipLines(c.rreal, pr);   // single-path overload: must be the same thing
     std::set<std::pair<int64_t, int64_t>> inputs; for (auto& q : pr) inputs.insert({q.x, q.y});
     Ev e("Case"); e.kn("id", ++id).kn("b", K > 0 ? 1 : 0).kv("L", jpath(w)).kn("n", (long long)out.size())
-      .kv("Q", jpaths(paths_work(c, out))).kv("vm", vm_of(c, out, inputs, false)).kn("eq1", out == out1 ? 1 : 0);
+      .kv("Q", jpaths(paths_work(c, out))).kv("vm", vm_of(c, out, inputs, false)).kn("eq1", out == out1 ? 1 : 0).kn("same", out == Paths64{pr} ? 1 : 0);
     os << e.str() << "\n";
     if (K > 0) {
       pend_real.push_back(pr); pend_cat.insert(pend_cat.end(), out.begin(), out.end()); for (auto& q : pr) pend_inputs.insert({q.x, q.y});
@@ -219,3 +242,24 @@ static int cmd_rcl(const Args& a) {
   return 0;
 }
 static Reg reg_rcl("rcl", cmd_rcl);
+
+// ------------------------------------------------------------------ conformance of the design model RectClipFSM.tla
+// vh rcfsm --in behaviours.ndjson --rect4 l,t,r,b --out f : every line {"P":..,"ring":..} is a terminated behaviour of the TLA+ automaton
+// (K-lattice coordinates); P is replayed into the library and the raw result recorded next to the model's ring.
+static int cmd_rcfsm(const Args& a) {
+  std::vector<long long> r4 = argl(a, "rect4", "12,12,36,36");
+  Rect64 rect(r4[0], r4[1], r4[2], r4[3]);
+  std::ifstream in(args(a, "in", "")); std::ofstream os(args(a, "out", "/dev/stdout"));
+  long long skip = argi(a, "skip", 0), stride = argi(a, "stride", 1), cnt = 0, id = 0;
+  os << Ev("FsmFam").kv("rect", jints(r4)).str() << "\n";
+  std::string line;
+  while (std::getline(in, line)) {
+    if (line.empty()) continue; long long c = cnt++; if (c < skip || (c - skip) % stride != 0) continue;
+    JV v = jparse(line); Path64 P = path_from(v["P"]), ring = path_from(v["ring"]);
+    Paths64 out = RectClip(rect, Paths64{P});
+    os << Ev("Fsm").kn("id", ++id).kv("P", jpath(P)).kv("ring", jpath(ring)).kv("raw", jpaths(out)).str() << "\n";
+  }
+  fprintf(stderr, "behaviours=%lld\n", id);
+  return 0;
+}
+static Reg reg_rcfsm("rcfsm", cmd_rcfsm);
